@@ -25,6 +25,7 @@ type callForm struct {
 	perLevel int             // frames per nesting level: script frames + native trampolines that stay on the stack
 	extra    string          // what the second frame per level is, where there is one
 	need     func(d int) int // overrides d*perLevel where the accounting is not linear
+	needOtto func(d int) int // alternative model of known finding F-C18-004 (frames ignore active direct evals)
 }
 
 var callForms = []callForm{
@@ -38,12 +39,11 @@ var callForms = []callForm{
 	{name: "valueOf", setup: `vo = { valueOf: r };`, call: `+vo;`, perLevel: 1},
 	{name: "forEach", setup: `one = [1];`, call: `one.forEach(r);`, perLevel: 2, extra: "Array.prototype.forEach"},
 	{name: "sort", setup: `two = [2, 1];`, call: `two.sort(r);`, perLevel: 2, extra: "Array.prototype.sort"},
-	// A direct eval enters no scope, but every ACTIVE direct eval counts one unit
-	// (runtime.evalDepth; the check is made when an eval starts, against
-	// scope depth + active evals). With the top-level entry also an eval, eval
-	// number i (0-based, started by r number i) sees i + (i+1); the deepest r
-	// frame itself needs d: need = max(d, 2(d-1)+1) = 2d-1.
-	{name: "eval", call: `eval("r()");`, need: func(d int) int { return 2*d - 1 }, extra: "one unit per active direct eval"},
+	// A direct eval enters no scope but counts one unit while it is active, like a
+	// native trampoline: d levels of (eval, r) need 2d units. (needOtto: otto charges
+	// the evals only at eval time and not when a frame is entered, so the deepest r
+	// frame gets in with one unit less, 2d-1: known finding F-C18-004.)
+	{name: "eval", call: `eval("r()");`, perLevel: 2, needOtto: func(d int) int { return 2*d - 1 }, extra: "one unit per active direct eval"},
 	// indirect eval: native frame of eval + the global frame it enters + r
 	{name: "eval_indirect", call: `(0, eval)("r()");`, perLevel: 3, extra: "eval's native frame and the global frame it enters"},
 	// a host function re-entering the runtime: its native frame, (for Run / Otto.Call) a global frame, r
@@ -120,17 +120,19 @@ func checkLimit(r *engine.Run, f callForm, L, d int, caught bool, key string) {
 	e := sess.run(injection{mode: modePlain}, nil, termCap)
 
 	need := f.needed(d)
-	success := L == 0 || need < L
-	var exp string
-	switch {
-	case success:
-		exp = fmt.Sprintf("ok:s:ok:%d", d)
-	case caught:
-		exp = "ok:s:RangeError:" + overflowMsg
-	default:
-		exp = "err:RangeError: " + overflowMsg
+	render := func(need int) string {
+		var exp string
+		switch {
+		case L == 0 || need < L:
+			exp = fmt.Sprintf("ok:s:ok:%d", d)
+		case caught:
+			exp = "ok:s:RangeError:" + overflowMsg
+		default:
+			exp = "err:RangeError: " + overflowMsg
+		}
+		return exp + "; rest=" + restClean
 	}
-	exp += "; rest=" + restClean
+	exp := render(need)
 	obs := e.out.outcome(nil) + "; rest=" + e.rest()
 	r.Eval(d > 0 && L > 0)
 	r.Outcome(obs)
@@ -139,7 +141,11 @@ func checkLimit(r *engine.Run, f callForm, L, d int, caught bool, key string) {
 		r.Sample(fmt.Sprintf("L=%d d=%d form=%s (needs %d frames) => %s", L, d, f.name, need, e.out.outcome(nil)))
 	}
 	if exp != obs {
-		r.Mismatch(engine.Mismatch{Key: key, Input: input, Expected: exp, Observed: obs, Aux: map[string]string{"kind": "limit"}})
+		aux := map[string]string{"kind": "limit"}
+		if f.needOtto != nil && d > 0 {
+			aux = map[string]string{"kind": "limit-mixed", "has_eval": "1", "alt_model": b01(obs == render(f.needOtto(d)))}
+		}
+		r.Mismatch(engine.Mismatch{Key: key, Input: input, Expected: exp, Observed: obs, Aux: aux})
 		return
 	}
 	// the threshold has not moved: the same program under the same limit ends the same way again
